@@ -987,6 +987,15 @@ class Sim:
                     self._line_fault = f
             if self.trace_mode or self._line_fault is not None:
                 sys.settrace(self._global_trace)
+            seed_snap = None
+            if self.seed_solution is not None:
+                # the Solution handed over as a seed is the record of a finished run: the run it seeds must
+                # not write into it (engine-level aliasing invariant, as for the arrays handed to an update)
+                try:
+                    td_ = self.seed_solution.tdgl_data
+                    seed_snap = {n_: np.array(getattr(td_, n_), copy=True) for n_ in ("psi", "mu", "supercurrent", "normal_current", "induced_vector_potential") if getattr(td_, n_, None) is not None}
+                except Exception:
+                    seed_snap = None
             try:
                 sol = solver.solve()
                 if scn.get("solve_twice") and sol is not None:
@@ -1019,6 +1028,13 @@ class Sim:
                 h.exc_obj = e
             finally:
                 sys.settrace(old_trace)
+                if seed_snap is not None:
+                    td_ = self.seed_solution.tdgl_data
+                    for n_, v_ in seed_snap.items():
+                        if not aeq(np.asarray(getattr(td_, n_)), v_):
+                            self.alias_violations.append(("seed", -1, n_))
+                            h.probe("seed_modified_in_place")
+                            break
             h.ev("outcome", h.outcome, h.exc[0] if h.exc else None)
         finally:
             sys.settrace(old_trace)
